@@ -22,10 +22,13 @@ Definition world := list blobm.
 Definition attr_node_type : N := 1.   (* "camliNodeType" *)
 
 Inductive lop := OAnd | OOr | OXor | ONot.
+(* the value part of a PermanodeConstraint: none, Value (exact), or a ValueMatches string constraint, given by the set of
+   values it accepts *)
+Inductive pval := PNone | PExact (v : N) | PIn (vs : list N).
 (* one Constraint struct: every set field must match (allMustMatch); no field set = neverMatch *)
 Inductive cst :=
 | Node (logical : option (lop * cst * cst)) (anything : bool) (camli : ctype) (anycamli : bool)
-       (perm : option (N * N))        (* PermanodeConstraint{Attr, Value}: attr 0 = no attribute constraint; value 0 = any *)
+       (perm : option (N * pval))     (* PermanodeConstraint{Attr, Value | ValueMatches}: attr 0 = no attribute constraint *)
        (whole : N)                    (* FileConstraint{WholeRef}, 0 = unset *)
        (size : option (N * N))        (* BlobSize{min,max} *)
        (refis : N)                    (* BlobRefPrefix that is a complete blobref, 0 = unset *)
@@ -34,6 +37,8 @@ Inductive cst :=
 Definition avals (b : blobm) (a : N) : list N :=
   match find (fun p => N.eqb (fst p) a) (m_attrs b) with Some p => snd p | None => [] end.
 Definition memN (x : N) (l : list N) : bool := existsb (N.eqb x) l.
+Definition pval_matches (v : pval) (vals : list N) : bool :=
+  match v with PNone => true | PExact x => memN x vals | PIn vs => existsb (fun x => memN x vs) vals end.
 
 (* SPEC / matcher (genMatcher is compositional; the two coincide by construction, the theorems are about the planner) *)
 Fixpoint matches (c : cst) (b : blobm) : bool :=
@@ -52,7 +57,7 @@ Fixpoint matches (c : cst) (b : blobm) : bool :=
         (if anycamli then [negb (ctype_eqb (m_type b) TNone)] else []) ++
         (match perm with
          | Some (a, v) => [ctype_eqb (m_type b) TPermanode &&
-                           (N.eqb a 0 || (if N.eqb v 0 then true else memN v (avals b a)))]
+                           (N.eqb a 0 || pval_matches v (avals b a))]
          | None => [] end) ++
         (if N.eqb whole 0 then [] else [ctype_eqb (m_type b) TFile && N.eqb (m_whole b) whole]) ++
         (match size with Some (lo, hi) => [N.leb lo (m_size b) && (N.eqb hi 0 || N.leb (m_size b) hi)] | None => [] end) ++
@@ -70,7 +75,7 @@ Fixpoint valid (c : cst) : bool :=
        | Some (ONot, x, _) => valid x
        | Some (_, x, y) => valid x && valid y
        | None => true end) &&
-      (match perm with Some (a, v) => N.eqb a 0 || negb (N.eqb v 0) | None => true end)
+      (match perm with Some (a, v) => N.eqb a 0 || match v with PNone => false | _ => true end | None => true end)
   end.
 
 (* ---- planner predicates ---- *)
@@ -81,16 +86,14 @@ Fixpoint only_perm (c : cst) : bool :=
       match logical with Some (OAnd, x, y) => only_perm x || only_perm y | _ => false end
   end.
 
+Definition exact_type (perm : option (N * pval)) : option N :=
+  match perm with Some (a, PExact v) => if N.eqb a attr_node_type then Some v else None | _ => None end.
+
 Fixpoint perm_types (c : cst) : list N :=
   match c with
   | Node logical _ _ _ perm _ _ _ _ =>
-      match perm with
-      | Some (a, v) => if N.eqb a attr_node_type && negb (N.eqb v 0) then [v] else
-          match logical with
-          | Some (OAnd, x, y) => match perm_types x with [] => perm_types y | sa => sa end
-          | Some (OOr, x, y) => match perm_types x, perm_types y with [], _ | _, [] => [] | sa, sb => sa ++ sb end
-          | _ => []
-          end
+      match exact_type perm with
+      | Some v => [v]
       | None =>
           match logical with
           | Some (OAnd, x, y) => match perm_types x with [] => perm_types y | sa => sa end
